@@ -150,11 +150,19 @@ Print Assumptions C12_conditional_binds_weakest.
 
 (* ------------------------------------------------------------------------------------------ *)
 (** 5. Literals: the lexer actions compute positional / little-endian values. *)
+(* domain: at most 4300 characters (CPython's decimal conversion limit; hex and binary have none) *)
 Theorem C12_literal_decimal :
-  forall s ds, s <> [] -> digits_of dec_digit s = Some ds ->
+  forall s ds, s <> [] -> Z.of_nat (List.length s) <= 4300 -> digits_of dec_digit s = Some ds ->
   number_value doc_char_escapes s = Ok (positional 10 ds).
 Proof. exact decimal_literal. Qed.
 Print Assumptions C12_literal_decimal.
+
+(* beyond it the literal is refused with a lexing error (never silently given another value) *)
+Theorem C12_literal_decimal_too_long_is_refused :
+  forall s, 4300 < Z.of_nat (List.length s) -> (forall c, In c s -> 48 <= c <= 57) ->
+  number_value doc_char_escapes s = LibError LexLiteralTooLong.
+Proof. exact decimal_literal_too_long. Qed.
+Print Assumptions C12_literal_decimal_too_long_is_refused.
 
 Theorem C12_literal_hex :
   forall x s ds, x = 120 \/ x = 88 -> s <> [] -> digits_of hex_digit s = Some ds ->
